@@ -526,6 +526,13 @@ def _step_convert(M, op):
             o2.fz0 = []
             o2.z0 = [complex(Z0_DEFAULT)] * o2.ports
             alts.append(Alt(True, 0, {dname: o2}))
+            if acc is None and is_zin:
+                # both open points at once
+                o3 = o2.clone()
+                o3.data = list(o2.data)
+                o3.rows = o3.cols = 0
+                o3.z0 = []
+                alts.append(Alt(True, 0, {dname: o3}))
     if acc is not True:
         why = "bad-type" if not (isinstance(newtype, int) and
                                  0 <= newtype < NTYPES) else "no-such-conversion"
